@@ -24,8 +24,9 @@ RULE = (
 ASSUMPTIONS = ["dihedral / alternating conventions for n <= 2 as stated in the library's docstrings", "Greene brute force up to length 7 (8 thorough)"]
 REQUIRED = ["calls.Perm.stack_sort", "calls.Perm.pop_stack_sort", "calls.Perm.bubble_sort", "calls.Perm.quick_sort", "calls.Perm.west_2_stack_sortable",
             "calls.Bijections.simion_and_schmidt", "calls.pp.baxter", "calls.pp.simsun", "calls.pp.yt_perm_avoids_22", "ss.bijection_levels",
-            "ss.rejected", "characterisation.checked", "derived.images", "faults.injected", "dihedral.affine_near_members"]
+            "ss.rejected", "characterisation.checked", "derived.images", "faults.injected", "dihedral.affine_near_members", "bkv.checked"]
 MIN_NONTRIVIAL = 3000
+BKV_PATTERNS = [(), ((0, 1),), ((1, 0),), ((0, 1, 2),), ((1, 2, 0),), ((0, 2, 1),), ((2, 1, 0),), ((0, 1), (1, 0)), ((0, 1, 2), (2, 1, 0))]
 CTX = None
 MON = None
 FAULTS = None
@@ -156,6 +157,21 @@ def chk_perm(ctx, p):
         if name.startswith("yt_") and len(p) > GREENE_MAX[ctx.tier]:
             continue
         getattr(PP, name)(P)
+    if len(p) <= 6:
+        # the two-stacks-in-series machine with a restricted first stack: by second implementation for several restrictions,
+        # and by its known characterisations (no restriction: Av(132); 12-machine: Av(213); 21-machine: West-2-stack-sortable)
+        import contextlib
+        import io
+
+        for pats in BKV_PATTERNS:
+            with contextlib.redirect_stdout(io.StringIO()):  # (the function prints its trace)
+                got = P.bkv_sortable(tuple(Perm(q) for q in pats))
+            ctx.ev()
+            ctx.count("bkv.checked")
+            want = SO.bkv_sortable(t, pats)
+            known = {(): not C.contains(t, (0, 2, 1)), ((0, 1),): not C.contains(t, (1, 0, 2)), ((1, 0),): SO.west2_by_patterns(t)}.get(pats, want)
+            if got is not want or got is not known:
+                report("perm", [p], f"bkv_sortable({pats}) = {got}; machine simulation gives {want}, known characterisation {known}")
     # history on derived objects: the images under the devices are asked first, then the permutation itself again
     # (every call is judged by the monitors on that object's own value)
     for dev in ("stack_sort", "pop_stack_sort", "bubble_sort", "quick_sort"):
